@@ -148,7 +148,9 @@ def handle : List String → String
       match omitF.toList.map (fun c => parseBool c.toString) with
       | [some a, some b, some c] => some (a, b, c)
       | _ => none
-    match srv, ci, st, parseRanges hT, om, Hex.decode remote, parseBool tls, Hex.decode host, parseHdrs hdrs with
+    -- tls: 0 plain | 1 r.TLS set | 2 r.TLS recovered by Server.ServeHTTP from the connection in the context
+    let tlsB : Option Bool := if tls == "2" then some true else parseBool tls
+    match srv, ci, st, parseRanges hT, om, Hex.decode remote, tlsB, Hex.decode host, parseHdrs hdrs with
     | some srv, some ci, some st, some nh, some (o1, o2, o3), some remote, some tls, some host, some wire =>
       let ns := match srv with | some n => n | none => 0
       match parseTable ns nh tbl, parseSmall failsF, parseOps hopsF with
